@@ -188,6 +188,48 @@ func checkAssembled(t *fw.T, e *gen.Node, label string) {
 	t.Distinct(e.S())
 }
 
+// checkEditedAfterPrint: a tree that has already been printed is edited in place the way a transformation pass edits
+// it (the operator of one binary node is replaced by another binary operator) and printed again. The edited tree is a
+// tree like any other: its print must parse back to its (new) shape. Catches printers that remember something about
+// a node from an earlier print (cached precedence, cached text).
+func checkEditedAfterPrint(t *fw.T, r *rand.Rand, e *gen.Node) {
+	var bins []*gen.Node
+	e.Walk(func(n *gen.Node) {
+		if n.K == gen.KBin {
+			bins = append(bins, n)
+		}
+	})
+	if len(bins) == 0 {
+		return
+	}
+	prog := gen.Prog(gen.Let("v", e), gen.ExprStmt(gen.Asg("=", gen.Id("r"), e)))
+	assembledBins = map[*gen.Node][]*ast.BinaryExpression{}
+	defer func() { assembledBins = nil }()
+	var ap *ast.Program
+	if !t.Guard("assemble", nil, func() { ap = toProgram(prog) }) {
+		return
+	}
+	// first print under every printer (result judged by the ordinary strata; here it only has to happen)
+	if !t.Guard("first print", nil, func() {
+		for _, k := range c03Printers {
+			k.Compile(ap)
+		}
+	}) {
+		return
+	}
+	for round := 0; round < 2; round++ {
+		n := bins[r.IntN(len(bins))]
+		op := gen.BinOps[r.IntN(len(gen.BinOps))]
+		n.Op = op
+		for _, b := range assembledBins[n] {
+			b.Token = tk(opTypes[op], op)
+			b.Operator = op
+		}
+		t.Count("trees_edited_after_a_print", 1)
+		checkRoundTrip(t, ap, prog.S(), "edited-after-print", func() string { return e.S() })
+	}
+}
+
 // random assembled expressions of larger depth, operands unrestricted except the quantifier's restrictions
 func randAssembled(r *rand.Rand, d int, slot slotKind) *gen.Node {
 	atom := func() *gen.Node {
@@ -234,6 +276,9 @@ func runC03Random(t *fw.T) {
 	d := 3 + r.IntN(8)
 	e := randAssembled(r, d, slotAny)
 	checkAssembled(t, e, "random")
+	if t.Index%4 == 0 {
+		checkEditedAfterPrint(t, r, e)
+	}
 	if t.WantSample() && e.Size() < 14 {
 		t.Sample(map[string]any{"stratum": "random-assembled", "tree": e.S(), "compact": CfgCompact.Compile(&ast.Program{Statements: []ast.Statement{&ast.ExpressionStatement{Expression: toExpr(e)}}}).Code})
 	}
